@@ -59,7 +59,8 @@ def generate(rng, tier):
             arg = [(k, rng.choice([1, -1])) for k in keys]
         elif op == "unique": arg = rng.choice([["a"], ["b"], ["a", "b"], [], ["_tag_"]])
         elif op in ("select", "unselect"): arg = rng.sample(["_tag_", "a", "b", "c", "d", "zz"], rng.randint(1, 3))
-        elif op == "rename": arg = rng.choice([[("aa", "a")], [("bb", "b"), ("cc", "c")], [("q", "d")], [("nn", "missing")]])
+        elif op == "rename": arg = rng.choice([[("aa", "a")], [("bb", "b"), ("cc", "c")], [("q", "d")], [("nn", "missing")],
+                                               [("a", "b"), ("b", "a")], [("b", "a"), ("c2", "b")], [("b", "a"), ("a", "b")], [("c", "a"), ("a", "b"), ("b", "c")]])
         elif op in ("modify", "modify_if"): arg = rng.choice(["double_tag", "set_flag"])
         elif op == "fill_missing_keys": arg = rng.choice([{"c": 0}, {"d": "fill", "e": None}])
         elif op == "append": arg = {"_tag_": 1000 + rng.randint(0, 99), "a": 9}
@@ -75,7 +76,7 @@ def generate(rng, tier):
 
 PREDS = {"a_is_1": lambda x: x.get("a") == 1, "b_none": lambda x: x.get("b") is None,
          "tag_even": lambda x: isinstance(x.get("_tag_"), int) and x["_tag_"] % 2 == 0, "has_c": lambda x: "c" in x}
-MODS = {"double_tag": ("t2", lambda x: (x.get("_tag_") or 0) * 2), "set_flag": ("a", lambda x: -1)}
+MODS = {"double_tag": ("t2", lambda x: (x.get("_tag_") if isinstance(x.get("_tag_"), int) else 0) * 2), "set_flag": ("a", lambda x: -1)}
 
 def _cmp_key(k, dir):
     def cmp(x, y):
@@ -126,7 +127,7 @@ def model(L, op, arg):
     if op == "modify_if2":
         return [dict(x, a=-1, flag=True) if x.get("a") == 1 else x for x in L]
     if op == "modify2":
-        return [dict(x, a=(x.get("a") or 0) + 1, a2=(x.get("_tag_") or 0) * 10) for x in L]
+        return [dict(x, a=-2, a2=(x.get("_tag_") if isinstance(x.get("_tag_"), int) else 0) * 10) for x in L]
     if op == "fill_missing_keys": return [dict({k: v for k, v in arg.items() if k not in x}, **x) for x in L]
     if op == "fill_missing_keys_all":
         allk = []
@@ -167,7 +168,7 @@ def apply(di, data, op, arg):
     if op == "modify": return data.deepcopy().modify(**{MODS[arg][0]: MODS[arg][1]})
     if op == "modify_if": return data.deepcopy().modify_if(PREDS["tag_even"], **{MODS[arg][0]: MODS[arg][1]})
     if op == "modify_if2": return data.deepcopy().modify_if(lambda x: x.get("a") == 1, a=lambda x: -1, flag=lambda x: True)
-    if op == "modify2": return data.deepcopy().modify(a=lambda x: (x.get("a") or 0) + 1, a2=lambda x: (x.get("_tag_") or 0) * 10)
+    if op == "modify2": return data.deepcopy().modify(a=lambda x: -2, a2=lambda x: (x.get("_tag_") if isinstance(x.get("_tag_"), int) else 0) * 10)
     if op == "fill_missing_keys": return data.deepcopy().fill_missing_keys(**arg)
     if op == "fill_missing_keys_all": return data.deepcopy().fill_missing_keys()
     if op == "append": return data.append(dict(arg))
